@@ -210,7 +210,7 @@ def arm_edges_on_param(b, param):
     return out
 
 
-@rule('PS5', ['C03'], floor=2, template='ordered-must-calls')
+@rule('PS5', ['C03', 'C04'], floor=2, template='ordered-must-calls')
 def ps5(ctx):
     """FlushAndFsync = flush -> fdatasync of the same file -> dirsync, in that order; Flush = flush."""
     bs = [b for b in ctx.f.bodies.values() if b.name == BW_PERSIST]
